@@ -260,7 +260,7 @@ def build(ctx):
     import importlib
     for m in STAGE_MODULES:
         mod = importlib.import_module(f"props.{m}")
-        sub = _SubCtx(ctx, m)
+        sub = SubCtx(ctx, m)
         mod.build(sub)
     ctx.trust("stage summaries used in the composition run are the contracts proved in C02-C10/C13 (C02, C03, C04, C05, C09 re-discharged here)",
               "time.perf_counter / print (no effect on values)")
@@ -268,43 +268,7 @@ def build(ctx):
                     n_random=400 if ctx.tier == "quick" else 8000)
 
 
-class _SubCtx:
-    """view of the C01 context that prefixes the unit / obligation names of a stage module and drops its bounded stand-ins
-    (they belong to the stage property's own check)"""
-
-    def __init__(self, ctx, mod):
-        self._ctx, self._mod = ctx, mod
-
-    def __getattr__(self, k):
-        return getattr(self._ctx, k)
-
-    def unit(self, name, fn):
-        return self._ctx.unit(f"stage {self._mod}: {name}", fn)
-
-    def oblige(self, name, hyps, goal, func=None, kind="post", replay=None, info=None, expect="valid"):
-        info = dict(info or {})
-        info["stage"] = self._mod
-        return self._ctx.oblige(f"stage-{self._mod}:{name}", hyps, goal, func=func, kind=kind, replay=replay, info=info, expect=expect)
-
-    def canary(self, *a, **k):
-        from pyvc.framework import Ctx
-        return Ctx.canary(self, *a, **k)
-
-    def side_obligations(self, *a, **k):
-        from pyvc.framework import Ctx
-        return Ctx.side_obligations(self, *a, **k)
-
-    def expect(self, desc, ok):
-        return self._ctx.expect(f"stage {self._mod}: {desc}", ok)
-
-    def add_bounded(self, *a, **k):
-        return None
-
-
 def concretise(ctx, o, r):
-    st = (o.info or {}).get("stage")
-    if st:
-        import importlib
-        fn = getattr(importlib.import_module(f"props.{st}"), "concretise", None)
-        return fn(ctx, o, r) if fn else None
+    if (o.info or {}).get("stage"):
+        return stage_concretise(ctx, o, r)
     return {"seed": 0, "n_random": 150, "exhaustive_1d": 4, "exhaustive_2d": (2, 2), "only": o.info.get("input_class")}
